@@ -62,3 +62,108 @@ Proof.
     cbn [fold_right flat_map]. rewrite app_length. lia. }
   cbn [String.length]. lia.
 Qed.
+
+Lemma lookup_letter : forall k, lookup (dkind_letter k) dispatch_table = DKind k.
+Proof. intro k. destruct k; reflexivity. Qed.
+
+Lemma read_sig : forall s rest, N.of_nat (String.length s) <= MaxStringSize ->
+  read_str (sig_bytes s ++ rest) = ROk (bytes_of_string s, rest).
+Proof.
+  intros s rest Hs. unfold sig_bytes. apply read_str_enc. now rewrite length_bytes_of_string.
+Qed.
+
+Lemma letter_len : forall k, N.of_nat (String.length (dkind_letter k)) <= MaxStringSize.
+Proof. intro k. apply N.leb_le. destruct k; reflexivity. Qed.
+
+Section P.
+  Variable parse : string -> option ty.
+  Hypothesis parse_print : forall t, wf_ty t = true -> parse (print t) = Some t.
+  Variable c : wcfg.
+
+  Definition dval_exact (v : dval) : Prop :=
+    wf_dval v -> forall f, (ddepth v <= f)%nat -> exact (dec_dval parse c (S f)) v (enc_dval v).
+
+  Lemma dval_exact_num : forall k b, dval_exact (DNum k b).
+  Proof.
+    intros k b Hwf f _ rest. apply wf_dval_inv in Hwf as [Hb Hbool].
+    cbn [dec_dval enc_dval]. rewrite <- app_assoc, read_sig by apply letter_len. cbn [bind].
+    rewrite string_of_bytes_of_string, lookup_letter.
+    destruct k; cbn [dkind_width] in Hb |- *; rewrite read_num_le by exact Hb; cbn [bind]; try reflexivity.
+    specialize (Hbool eq_refl).
+    replace (if b =? 0 then 0 else 1) with b by (destruct (N.eqb_spec b 0); lia). reflexivity.
+  Qed.
+
+  Lemma dval_exact_str : forall s, dval_exact (DStr s).
+  Proof.
+    intros s Hwf f _ rest. apply wf_dval_inv in Hwf.
+    cbn [dec_dval enc_dval]. rewrite <- app_assoc, read_sig by (apply N.leb_le; reflexivity). cbn [bind].
+    rewrite string_of_bytes_of_string. change (lookup "s" dispatch_table) with DString. cbv iota.
+    rewrite read_str_enc by exact Hwf. reflexivity.
+  Qed.
+
+  Lemma dval_exact_raw : forall b, dval_exact (DRaw b).
+  Proof.
+    intros b Hwf f _ rest. apply wf_dval_inv in Hwf.
+    cbn [dec_dval enc_dval]. repeat rewrite <- app_assoc. rewrite read_sig by (apply N.leb_le; reflexivity). cbn [bind].
+    rewrite string_of_bytes_of_string. change (lookup "r" dispatch_table) with DRawD. cbv iota.
+    unfold rawValueMaxSize in Hwf.
+    rewrite read_num_le by (change (2 ^ (8 * N.of_nat 4)) with 4294967296; lia). cbn [bind].
+    replace (rawValueMaxSize <? N.of_nat (List.length b)) with false
+      by (symmetry; apply N.ltb_ge; unfold rawValueMaxSize; lia).
+    rewrite Nat2N.id, take_n_app. reflexivity.
+  Qed.
+
+  Lemma dval_exact_void : dval_exact DVoid.
+  Proof.
+    intros _ f _ rest.
+    cbn [dec_dval enc_dval]. rewrite read_sig by (apply N.leb_le; reflexivity). cbn [bind].
+    rewrite string_of_bytes_of_string. reflexivity.
+  Qed.
+
+  Lemma dval_exact_list : forall l, Forall dval_exact l -> dval_exact (DList l).
+  Proof.
+    intros l IH Hwf f Hf rest. apply wf_dval_inv in Hwf as [Hn Hall].
+    cbn [ddepth] in Hf. destruct f as [|f]; [lia|].
+    cbn [dec_dval enc_dval]. repeat rewrite <- app_assoc. rewrite read_sig by (apply N.leb_le; reflexivity). cbn [bind].
+    rewrite string_of_bytes_of_string. change (lookup "[m]" dispatch_table) with DListM. cbv iota.
+    unfold listValueMaxSize in Hn.
+    rewrite read_num_le by (change (2 ^ (8 * N.of_nat 4)) with 4294967296; lia). cbn [bind].
+    replace (listValueMaxSize <? N.of_nat (List.length l)) with false
+      by (symmetry; apply N.ltb_ge; unfold listValueMaxSize; lia).
+    rewrite (rep_exact enc_dval (dec_dval parse c (S f)) l _ eq_refl); [reflexivity|].
+    rewrite Forall_forall in IH, Hall |- *. intros x Hx. split.
+    - apply (IH x Hx (Hall x Hx)). pose proof (ddepth_In l x Hx) as Hd. lia.
+    - pose proof (enc_dval_length_ge x) as Hge. lia.
+  Qed.
+
+  Lemma dval_exact_opq : value_reader_no_len c = false -> forall sg d, dval_exact (DOpaque sg d).
+  Proof.
+    intros Hvr sg d Hwf f _ rest.
+    apply wf_dval_inv in Hwf as [t [v0 [Esg [Ed [Hg [Hlook [Hno [Hlen Hty]]]]]]]]. subst sg d.
+    cbn [dec_dval enc_dval]. rewrite <- app_assoc.
+    rewrite read_str_enc by (rewrite length_bytes_of_string; exact Hlen). cbn [bind].
+    rewrite string_of_bytes_of_string, Hlook. cbv iota.
+    apply String.eqb_neq in Hno. rewrite Hno. cbv zeta.
+    rewrite string_of_bytes_of_string, (parse_print t (good_ty_wf t Hg)).
+    rewrite (sig_read_spec parse parse_print c v0 t); [reflexivity|exact Hvr|exact Hg|exact Hty|].
+    pose proof (dyn_depth_le_len v0 t Hty) as Hd. rewrite app_length. lia.
+  Qed.
+
+  Lemma dec_dval_exact : forall v, value_reader_no_len c = false -> dval_exact v.
+  Proof.
+    intros v Hvr. induction v as [k b|s|l IH|b| |sg d] using dval_ind2.
+    - apply dval_exact_num.
+    - apply dval_exact_str.
+    - now apply dval_exact_list.
+    - apply dval_exact_raw.
+    - apply dval_exact_void.
+    - now apply dval_exact_opq.
+  Qed.
+
+  Theorem value_roundtrip : forall v rest, value_reader_no_len c = false -> wf_dval v ->
+    new_value parse c (enc_dval v ++ rest) = ROk (v, rest).
+  Proof.
+    intros v rest Hvr Hwf. unfold new_value.
+    apply (dec_dval_exact v Hvr Hwf).
+    pose proof (ddepth_le_len v) as Hd. rewrite app_length. lia.
+  Qed.
